@@ -11,10 +11,10 @@ import json
 import logging
 import contextlib
 
-from pybufrkit.errors import PyBufrKitError
+from pybufrkit.errors import PyBufrKitError, UnknownDescriptor
 from pybufrkit.coder import Coder, CoderState, BSRModifier, BITMAP_INDICATOR
 from pybufrkit.tables import TableGroupKey, TableGroupCacheManager
-from pybufrkit.descriptors import Descriptor
+from pybufrkit.descriptors import Descriptor, ElementDescriptor
 
 __all__ = ['loads_compiled_template', 'TemplateCompiler', 'CompiledTemplateManager', 'process_compiled_template']
 
@@ -269,6 +269,9 @@ class TemplateCompiler(Coder):
         if descriptor.id in (31011, 31012):
             raise NotImplementedError('delayed repetition descriptor')
 
+        if not isinstance(descriptor.factor, ElementDescriptor):
+            raise UnknownDescriptor('Cannot process delayed replication factor {} of type: {}'.format(
+                descriptor.factor, type(descriptor.factor).__name__))
         self.process_element_descriptor(state, bit_operator, descriptor.factor)
         with state.new_loop(CoderMethodCall('get_value_for_delayed_replication_factor')):
             self.process_members(state, bit_operator, descriptor.members)
